@@ -1167,6 +1167,7 @@ static Janet os_execute_impl(int32_t argc, Janet *argv, JanetExecuteMode mode) {
     JanetHandle pipe_in = JANET_HANDLE_NONE, pipe_out = JANET_HANDLE_NONE, pipe_err = JANET_HANDLE_NONE;
     int stderr_is_stdout = 0;
     int pipe_errflag = 0; /* Track errors setting up pipes */
+    int want_pipe_in = 0, want_pipe_out = 0, want_pipe_err = 0;
     int pipe_owner_flags = (is_spawn && (flags & 0x8)) ? JANET_PROC_ALLOW_ZOMBIE : 0;
 
     /* Get optional redirections */
@@ -1175,21 +1176,19 @@ static Janet os_execute_impl(int32_t argc, Janet *argv, JanetExecuteMode mode) {
         Janet maybe_stdin = janet_dictionary_get(tab.kvs, tab.cap, janet_ckeywordv("in"));
         Janet maybe_stdout = janet_dictionary_get(tab.kvs, tab.cap, janet_ckeywordv("out"));
         Janet maybe_stderr = janet_dictionary_get(tab.kvs, tab.cap, janet_ckeywordv("err"));
-        if (is_spawn && janet_keyeq(maybe_stdin, "pipe")) {
-            new_in = make_pipes(&pipe_in, 1, &pipe_errflag);
-            pipe_owner_flags |= JANET_PROC_OWNS_STDIN;
-        } else if (!janet_checktype(maybe_stdin, JANET_NIL)) {
+        /* Everything that can raise comes first; the pipes are created afterwards (below),
+         * so that a bad argument does not leak the ones already made. */
+        want_pipe_in = is_spawn && janet_keyeq(maybe_stdin, "pipe");
+        want_pipe_out = is_spawn && janet_keyeq(maybe_stdout, "pipe");
+        want_pipe_err = is_spawn && janet_keyeq(maybe_stderr, "pipe");
+        if (!want_pipe_in && !janet_checktype(maybe_stdin, JANET_NIL)) {
             new_in = janet_getjstream(&maybe_stdin, 0, &orig_in);
         }
-        if (is_spawn && janet_keyeq(maybe_stdout, "pipe")) {
-            new_out = make_pipes(&pipe_out, 0, &pipe_errflag);
-            pipe_owner_flags |= JANET_PROC_OWNS_STDOUT;
-        } else if (!janet_checktype(maybe_stdout, JANET_NIL)) {
+        if (!want_pipe_out && !janet_checktype(maybe_stdout, JANET_NIL)) {
             new_out = janet_getjstream(&maybe_stdout, 0, &orig_out);
         }
-        if (is_spawn && janet_keyeq(maybe_stderr, "pipe")) {
-            new_err = make_pipes(&pipe_err, 0, &pipe_errflag);
-            pipe_owner_flags |= JANET_PROC_OWNS_STDERR;
+        if (want_pipe_err) {
+            /* below */
         } else if (is_spawn && janet_keyeq(maybe_stderr, "out")) {
             stderr_is_stdout = 1;
         } else if (!janet_checktype(maybe_stderr, JANET_NIL)) {
@@ -1210,6 +1209,19 @@ static Janet os_execute_impl(int32_t argc, Janet *argv, JanetExecuteMode mode) {
         } else if (!janet_checktype(workdir, JANET_NIL)) {
             janet_panicf("expected string for :cd argumnet, got %v", workdir);
         }
+    }
+
+    if (want_pipe_in) {
+        new_in = make_pipes(&pipe_in, 1, &pipe_errflag);
+        pipe_owner_flags |= JANET_PROC_OWNS_STDIN;
+    }
+    if (want_pipe_out) {
+        new_out = make_pipes(&pipe_out, 0, &pipe_errflag);
+        pipe_owner_flags |= JANET_PROC_OWNS_STDOUT;
+    }
+    if (want_pipe_err) {
+        new_err = make_pipes(&pipe_err, 0, &pipe_errflag);
+        pipe_owner_flags |= JANET_PROC_OWNS_STDERR;
     }
 
     /* Clean up if any of the pipes have any issues */
